@@ -82,6 +82,80 @@ type blockingStore struct {
 	entered chan struct{}
 }
 
+// slowReadStore: Get of one key blocks until released
+type slowReadStore struct {
+	fakeStore
+	slowKey string
+	gate    chan struct{}
+	entered chan struct{}
+}
+
+func (b *slowReadStore) Get(key []byte) ([]byte, error) {
+	if string(key) == b.slowKey {
+		b.entered <- struct{}{}
+		<-b.gate
+	}
+	return b.fakeStore.Get(key)
+}
+
+// slowStoreRead: while the store takes its time over the read for one cold key, a key of the same shard that is
+// cached in memory is still served (C10: "slow calls ... responses cached in memory keep being served")
+func slowStoreRead(sum *hx.Summary) {
+	const name = "slowread"
+	url := "fake://" + name
+	ss := &slowReadStore{fakeStore: fakeStore{data: map[string][]byte{}}, gate: make(chan struct{}), entered: make(chan struct{}, 1)}
+	store.VerifRegister(url, ss)
+	defer store.VerifUnregister(url)
+	cache.ResetDispatchers([]config.CacheConfig{{Name: name, Size: 64, HitForPass: "300s", Store: url}})
+	defer cache.ResetDispatchers(nil)
+	d := cache.GetDispatcher(name)
+	zones := d.VerifZoneSize()
+	hot := []byte("GET slow.example /hot")
+	var cold []byte
+	for j := 0; ; j++ {
+		cold = []byte(fmt.Sprintf("GET slow.example /cold/%d", j))
+		if cache.MemHash(cold)%zones == cache.MemHash(hot)%zones {
+			break
+		}
+	}
+	hc := d.GetHTTPCache(hot)
+	hc.Get()
+	hc.Cacheable(mkResp(1), 60)
+	ss.slowKey = string(cold)
+	coldDone := make(chan struct{})
+	go func() {
+		d.GetHTTPCache(cold).Get()
+		close(coldDone)
+	}()
+	select {
+	case <-ss.entered: // the store read for the cold key is in progress
+	case <-time.After(2 * time.Second):
+		sum.Count("slow-store-read-scenario-skipped")
+		close(ss.gate)
+		return
+	}
+	hotRes := make(chan cache.Status, 1)
+	go func() {
+		st, _ := d.GetHTTPCache(hot).Get()
+		hotRes <- st
+	}()
+	verdict := ""
+	select {
+	case st := <-hotRes:
+		if st != cache.StatusHit {
+			verdict = "the memory-cached key was answered " + st.String() + " instead of hit"
+		}
+	case <-time.After(2 * time.Second):
+		verdict = "the request for the memory-cached key did not return within 2 s"
+	}
+	close(ss.gate)
+	<-coldDone
+	sum.Count("slow-store-read-scenario")
+	if verdict != "" {
+		sum.ImplViolations = append(sum.ImplViolations, map[string]interface{}{"property": "C10", "kind": "memory-hit-blocked-by-slow-store-read", "what": verdict, "hot_key": string(hot), "cold_key_same_shard": string(cold)})
+	}
+}
+
 func (b *blockingStore) Delete(key []byte) error {
 	if b.gate != nil {
 		b.entered <- struct{}{}
@@ -104,7 +178,7 @@ func TestChoreo(t *testing.T) {
 	n := envInt("PV_N", 12)
 	rnd := hx.NewRand(seed)
 	sum := hx.NewSummary("choreo", seed)
-	sum.Rule = "one case = one choreographed schedule (GOMAXPROCS=1, no async preemption). kind 0 entry-handoff: a fetcher holds the key; 2-5 operations (Get by new requests, the fetcher's completion Cacheable(ttl)/HitForPass) are queued on the entry lock in a chosen order and their critical sections run in that order, each operation descheduled between its Unlock and its next step (so a waiter is registered but not yet receiving when the completion runs); kind 1 zone-handoff: 2-6 requests for one cold key queued the same way on the shard lock (lookup-or-create), then each calls Get; kind 2 purge-window: a persisted hit; a purge whose store.Delete blocks; a request arrives meanwhile; Delete is released; a further request arrives after the purge returned; kind 3 lookup-purge-get: a fetch in flight with one parked request, a third request looks the entry up, the key is purged, and only then does the third request call Get on the entry it holds; then the fetch completes. Observation = what every Get returned or whether it is still parked, before and after the remaining fetch is completed. non-trivial = every case; distinct by (kind, queue)"
+	sum.Rule = "one case = one choreographed schedule (GOMAXPROCS=1, no async preemption). kind 0 entry-handoff: a fetcher holds the key; 2-5 operations (Get by new requests, the fetcher's completion Cacheable(ttl)/HitForPass) are queued on the entry lock in a chosen order and their critical sections run in that order, each operation descheduled between its Unlock and its next step (so a waiter is registered but not yet receiving when the completion runs); kind 1 zone-handoff: 2-6 requests for one cold key queued the same way on the shard lock (lookup-or-create), then each calls Get; kind 2 purge-window: a persisted hit; a purge whose store.Delete blocks; a request arrives meanwhile; Delete is released; a further request arrives after the purge returned; kind 3 lookup-purge-get: a fetch in flight with one parked request, a third request looks the entry up, the key is purged, and only then does the third request call Get on the entry it holds; then the fetch completes. Last, outside the forced schedules: a store whose read for one cold key blocks, while a key of the same shard that is cached in memory must still be served within 2 s. Observation = what every Get returned or whether it is still parked, before and after the remaining fetch is completed. non-trivial = every case; distinct by (kind, queue)"
 	header := "From Coq Require Import List ZArith.\nImport ListNotations.\nFrom Pike Require Import Model.Sys Corr.SysCorr Corr.ChoreoCorr.\n"
 	w := hx.NewCaseWriter(out, "choreo", header, "list ch_case", "check_cases", 50, sum)
 	distinct := hx.NewDistinct()
@@ -333,6 +407,8 @@ func TestChoreo(t *testing.T) {
 		sum.Sample(rep)
 	}
 	_ = os.Remove(out + "/inflight.json")
+	runtime.GOMAXPROCS(4) // the last scenario needs real blocking, not a forced schedule
+	slowStoreRead(sum)
 	w.Flush()
 	sum.DistinctNontrivial = distinct.Len()
 	sum.Write(out)
